@@ -319,6 +319,9 @@ def _generate_task_from_yield(tasks, func_name, task_dict, gen_doc):
 
     msg_dup = "Task generation '%s' has duplicated definition of '%s'"
     basename = task_dict.pop('basename', None)
+    if basename is not None and not isinstance(basename, str):
+        raise InvalidTask("Task '%s'. 'basename' must be a str, got %r" %
+                          (func_name, basename))
     # if has 'name' this is a sub-task
     if 'name' in task_dict:
         basename = basename or func_name
@@ -330,6 +333,9 @@ def _generate_task_from_yield(tasks, func_name, task_dict, gen_doc):
             group_task.has_subtask = True
             tasks[basename] = group_task
             return
+        if not isinstance(task_dict['name'], str):
+            raise InvalidTask("Task '%s'. 'name' must be a str, got %r" %
+                              (func_name, task_dict['name']))
 
         # name is '<task>.<subtask>'
         full_name = f"{basename}:{task_dict['name']}"
